@@ -132,6 +132,7 @@ class Shapes:
         self._summaries: dict = {}
         self._clean_cache: dict = {}
         self.unknown_filters: list[ast.AST] = []
+        self.overfilters: list[tuple[ast.AST, str]] = []  # (event, condition): pairs of *different* layers are dropped as well
         self._changed = True
         self.run()
 
@@ -597,6 +598,7 @@ class Shapes:
         for pid in ids:
             if implies(f, f_not(atom(f"SAME:{pid}"))) and f"SAME:{pid}" in same:
                 res = True
+                self._check_overfilter(event, cs, pid, ids)
         if res is False and not same:
             ends = self._lookup_ends(cs)
             mine = [e for e in ends if e is not None and e[0] in ids]
@@ -621,6 +623,57 @@ class Shapes:
                 self.unknown_filters.append(event)
         self._clean_cache[key] = res
         return res
+
+    def _check_overfilter(self, event: ast.AST, cs, pid: str, ids: set[str]) -> None:
+        """The filter must drop *only* same-layer pairs: the conditions on the pair, taken together, have to hold for every
+        pair whose ends lie in different layers (a module in no layer has the layer None, which differs from every layer)."""
+        base_ids = {i for i in ids if not i.startswith("(")} | {z.strip() for i in ids if i.startswith("(") for z in i.strip("()").split(",")}
+
+        def related(c: ast.expr) -> bool:
+            seen: set[str] = set()
+            work = [c]
+            for _ in range(4):
+                nxt = []
+                for e in work:
+                    for x in ast.walk(e):
+                        if isinstance(x, ast.Name) and x.id not in seen:
+                            seen.add(x.id)
+                            v = single_value(self.view, x) if isinstance(x.ctx, ast.Load) else x
+                            if v is not x:
+                                nxt.append(v)
+                work = nxt
+            return bool(seen & base_ids)
+
+        rel = [(c, pol) for c, pol in cs if related(c)]
+        if not rel:
+            return
+        f = conds_formula(rel, self.guard_subst())
+        same = atom(f"SAME:{pid}")
+        extra = sorted(a for a in atoms_of(f) if a != same[1])
+        if not extra:
+            return
+        # classify the extra atoms: tests whether the layer of one end is None
+        none_of: dict[int, str] = {}
+        for a in extra:
+            try:
+                e = ast.parse(a, mode="eval").body
+            except SyntaxError:
+                return
+            x = None
+            if isinstance(e, ast.Compare) and len(e.ops) == 1 and isinstance(e.ops[0], ast.Is) and isinstance(e.comparators[0], ast.Constant) and e.comparators[0].value is None:
+                x = e.left
+            if x is None:
+                return  # something we cannot interpret: no claim
+            arg = self._is_lookup(x)
+            end = self._endpoint(arg) if arg is not None else None
+            if end is None or end[0] not in ids:
+                return
+            none_of[end[1]] = a
+        constraints = ("const", True)
+        if 0 in none_of and 1 in none_of:
+            constraints = f_or([f_not(f_and([atom(none_of[0]), atom(none_of[1])])), same])  # both in no layer: the same "layer"
+        if not implies(f_not(same), f, constraints):
+            self.overfilters.append((event, " and ".join(norm(c, 50) if pol else f"not ({norm(c, 50)})" for c, pol in rel)))
 
     def _lookup_alias_in(self, cs) -> bool:
         for c, _p in cs:
